@@ -369,6 +369,9 @@ def oracle_C04(result):
         if key and key[1] < 89 and out["k"] == "Err" and out["e"] not in ("NotFound", "AsyncErr", "RuntimeErr"):
             bad.append(("C04:lookup-raised", f"step {i}: lookup of {key[1:]} in context {key[0]} raised {out['e']} "
                         f"(whichever API triggers the generation returns the factory's product)", i))
+        if key and out["k"] == "Val" and out["v"] and out["v"][0] == "other":
+            bad.append(("C04:not-the-factorys-product", f"step {i}: lookup of {key[1:]} in context {key[0]} returned "
+                        f"{out['v'][1]!r}: neither a resource that was added nor what a factory produced", i))
         if key and out["k"] == "Val" and out["v"] is not None:
             if key in got and got[key][1] != out["v"]:
                 bad.append(("C04:callers-disagree", f"step {i}: lookup of {key[1:]} in context {key[0]} returned "
